@@ -13,7 +13,7 @@ import (
 func init() {
 	register(&propInfo{
 		ID:          "C03",
-		Explanation: "CFG path analysis of the WebSocket connection loop and its helpers, deciding on every control path (including the error/exit paths no test takes) the structural conditions under which no accepted call can be left without an answer: (R03.1) every site that signals connection loss first marks the connection unusable with a certainly non-nil error, and the mark is cleared only after a new socket has been installed; (R03.2) every exit of the loop runs the deferred in-flight failer, sink closer, exit signal and context cancel; (R03.3) before a redial goroutine is spawned, in-flight calls are failed and sinks closed, on every loss path; (R03.4) the failer answers every registered call, unconditionally, with the temporary-connection code and empties the table in the same critical section; (R03.5) every enqueue of a request is a select alternative to the client's exit signal; (R03.6) the accept arm either registers the request or answers it on every path, and on the connection-unusable path answers with the temporary error without registering or writing; (R03.7) a loss arm returns when no reconnect is possible; (R03.8) every per-request mailbox is a freshly made channel with capacity >= 1. (R03.12) the peer-activity channel is signalled only inside the pong/ping handlers; (R03.13) the redial dials with no library mutex held. (R03.14) the retry loop sleeps on its back-off between re-sends. (R03.15) every socket write is bounded: it is preceded, on every path on which a timeout is configured, by a SetWriteDeadline of a non-zero time that is not lifted again (searched through helpers and callers); WriteControl must be handed a non-zero deadline. The loop writes requests itself and takes the write lock in its dead-peer and stop arms, so an unbounded write parked on a silent peer blocks calls, detection and closer.",
+		Explanation: "CFG path analysis of the WebSocket connection loop and its helpers, deciding on every control path (including the error/exit paths no test takes) the structural conditions under which no accepted call can be left without an answer: (R03.1) every site that signals connection loss first marks the connection unusable with a certainly non-nil error, and the mark is cleared only after a new socket has been installed; (R03.2) every exit of the loop runs the deferred in-flight failer, sink closer, exit signal and context cancel; (R03.3) before a redial goroutine is spawned, in-flight calls are failed and sinks closed, on every loss path; (R03.4) the failer answers every registered call, unconditionally, with the temporary-connection code and empties the table in the same critical section; (R03.5) every enqueue of a request is a select alternative to the client's exit signal; (R03.6) the accept arm either registers the request or answers it on every path, and on the connection-unusable path answers with the temporary error without registering or writing; (R03.7) a loss arm returns when no reconnect is possible; (R03.8) every per-request mailbox is a freshly made channel with capacity >= 1. (R03.12) the peer-activity channel is signalled only inside the pong/ping handlers; (R03.13) the redial dials with no library mutex held. (R03.14) the retry loop sleeps on its back-off between re-sends. (R03.15) every socket write is bounded: it is preceded, on every path on which a timeout is configured, by a SetWriteDeadline of a non-zero time that is not lifted again (searched through helpers and callers); WriteControl must be handed a non-zero deadline. The loop writes requests itself and takes the write lock in its dead-peer and stop arms, so an unbounded write parked on a silent peer blocks calls, detection and closer. (R03.16) the start of a handler never waits for other handlers.",
 		NotDecided:  "Fault timing, TCP behaviour, how long a bounded write actually takes (R03.15 decides only that every write carries a deadline, not its value), and that a call is eventually scheduled; 'foreign result' is covered structurally under C02.",
 		Assumptions: []string{"branch correlation is applied only to repeated nil tests of the accepted request's id", "the connection loop, failer, redial function etc. are resolved by what they do (field uses, gorilla calls), not by name"},
 		Run:         runC03,
@@ -333,6 +333,8 @@ func runC03(c *Ctx) {
 	c.rule("R03.8", "every per-request mailbox is a freshly made channel with constant capacity >= 1")
 	c.rule("R03.15", "every socket write is bounded by a write deadline set before it: the connection loop writes requests itself, so a write parked on a silent peer blocks every call and the loss handling for ever")
 	c.boundedSocketWrites("R03.15")
+	c.ruleOpt("R03.16", "calls are served again once the link is healthy: the start of a handler never waits for other handlers (a bounded pool of execution slots filled by calls parked on a stalled connection would keep every later call waiting)")
+	c.noWaitBeforeHandler("R03.16")
 	if !c.need("R03.2", "FN_loop", r.FnLoop != nil) {
 		return
 	}
